@@ -397,6 +397,9 @@ def run(check, ctx):
     # AES.c and AESNI.c interpreted side by side (AES-NI instructions modelled from the Intel SDM)
     from . import c_aes
     c_aes.aes_tables(check, ctx)
+    # the custom-C integer back-end agrees with the others only if its word and Montgomery arithmetic is exact
+    from . import c_mont
+    c_mont.mont_tables(check, ctx)
     # siblings must also agree on requests of 4 GiB or more: neither may run a 32-bit counter against the length
     crules.streaming_length_rule(check, cdb, rule="M", only_tus=("ghash_portable.c", "ghash_clmul.c", "AES.c", "AESNI.c"))
     check.floor("K-pw", 8)
